@@ -347,6 +347,14 @@ Section Failure.
       + exists t1, p1. repeat split; auto. right; exact Hin1.
   Qed.
 
+  Lemma scan_props_none (w : world) i tg (f : prop -> bool) :
+    (forall t, In t tg -> exists p, props w !! (t, i) = Some p /\ f p = false) -> scan_props w i tg f = None.
+  Proof.
+    induction tg as [|t0 ts IH]; intros Hall; [reflexivity|]. cbn [scan_props].
+    destruct (Hall t0 (or_introl eq_refl)) as (p0 & Hp0 & Hf0). rewrite Hp0, Hf0. apply IH.
+    intros t' Ht'. apply Hall. right; exact Ht'.
+  Qed.
+
   (* the transaction is APPLYING, every proposal has entered its Apply phase and one of them FAILED:
      the transaction is written FAILED with the failure of (the first, in scan order) failed proposal *)
   Lemma tx_reports_failure (w : world) i (T : txn) tg :
@@ -357,7 +365,10 @@ Section Failure.
       rec_tx w i = ([EPutTx i (T <| t_state := TFailed |> <| t_failure := p_afail p |> <| t_apply := Some Failed |>)], RDone).
   Proof.
     intros HT Ha Hp Hall (t & p & Hin & Hpp & Hf).
-    unfold Proto2.rec_tx. rewrite HT. cbv zeta. rewrite Ha, Hp. cbn [default]. unfold id, phase_scan.
+    unfold Proto2.rec_tx. rewrite HT. cbv zeta. rewrite Ha, Hp. cbn [default]. unfold id.
+    rewrite (scan_props_none w i tg (fun p => is_none (p_apply p))).
+    2:{ intros t' Ht'. destruct (Hall t' Ht') as (p' & Hp' & [a' Hs']). exists p'. split; [exact Hp'|]. rewrite Hs'. reflexivity. }
+    unfold phase_scan.
     match goal with |- context [scan_props w i tg ?f] =>
       destruct (scan_props_found w i tg f) as (t1 & p1 & Hin1 & Hp1 & Hf1 & Hs1) end.
     - intros t' Ht'. destruct (Hall t' Ht') as (p' & Hp' & _). eexists; exact Hp'.
